@@ -4,14 +4,20 @@ namespace Hv.Driver
 open Hv
 
 /-- open a chain of VHDX files (base first, top last); a child's parent is the parent
-    object's `read_sectors` -/
+    object's `read_sectors`. A file whose metadata says `has_parent` needs the layer below
+    (otherwise `open_parent` fails: IOError); a file without it ignores whatever is below. -/
 def vhdxChain (st : St) : List String → Except Err (Option Vhdx.Vhdx)
   | ids =>
     ids.foldlM (fun (acc : Option Vhdx.Vhdx) id => do
       let some fh := st.file? id | throw .other
-      let parent : Option Vhdx.SectorReader := acc.map (fun pv => fun sector count => pv.readSectors count sector count)
-      let v ← Vhdx.open fh parent
-      pure (some v)) none
+      let probe ← Vhdx.open fh none
+      if probe.hasParent then
+        match acc with
+        | none => throw .other
+        | some pv =>
+          let v ← Vhdx.open fh (some (fun sector count => pv.readSectors count sector count))
+          pure (some v)
+      else pure (some probe)) none
 
 def vhdxCmd (st : St) : List String → String
   | "vhdx.open" :: ids =>
